@@ -230,6 +230,173 @@ def h_scale(sym):
     sym.goal('proved')
 
 
+
+# ---------------------------------------------------------------------------------------------------------------------
+# Angle / vector conversions of LighthouseBsVector, decided over the reals with ABSTRACT trigonometry (vf/plugins/trig.py):
+# tan/atan/atan2/asin/sin/cos are uninterpreted functions constrained by ground instances of standard identities, sqrt is the
+# real-model root.  np.float32(...) in the module under test keeps its entries (rounding to float32 is outside the claim).
+import math                                                                   # noqa: E402
+import cflib.localization.lighthouse_bs_vector as _bsv                         # noqa: E402
+from cflib.localization.lighthouse_bs_vector import LighthouseBsVector         # noqa: E402
+
+FOV_ANGLE = 0.98          # rad (56 degrees): |tan| <= 1.5, inside every base station's field of view
+
+
+class _NpShim:
+    """numpy for the module under test while symbolic: float32(seq) -> object array of the same (symbolic) numbers."""
+
+    def __getattr__(self, name):
+        return getattr(np, name)
+
+    @staticmethod
+    def float32(x):
+        return np.array(list(x), dtype=object)
+
+
+def _abstract_trig(sym):
+    if sym.symbolic:
+        from vf.plugins import trig
+        trig.ENABLED = True
+        _bsv.np = _NpShim()
+    sym.B.update(dict(prove_order='z3', prove_timeout=300, prove_z3_timeout=15, prove_identity_first=False,
+                      prove_relevance=True, prove_relevance_hops=(1, 2, 3), prove_relevance_timeout=10))
+
+
+def _angle(sym, name, lim=FOV_ANGLE):
+    return sym.real(name, -lim, lim)
+
+
+def h_conv_projection(sym):
+    """V1 angles <-> image-plane projection are mutual inverses; signs follow the documented convention (left/up positive)."""
+    _abstract_trig(sym)
+    h, v = _angle(sym, 'h'), _angle(sym, 'v')
+    y, z = sym.real('y', -1.5, 1.5), sym.real('z', -1.5, 1.5)
+    b = LighthouseBsVector(h, v)
+    assert b.lh_v1_horiz_angle is h and b.lh_v1_vert_angle is v and b.lh_v1_angle_pair == (h, v)
+    p = b.projection
+    assert len(p) == 2
+    sym.prove(sym.close(p[0], math.tan(h)), 'projection y is tan(horizontal angle)')
+    sym.prove(sym.close(p[1], math.tan(v)), 'projection z is tan(vertical angle)')
+    if sym.symbolic:
+        sym.prove((p[0] > 0) == (h > 0), 'projection y has the sign of the horizontal angle')
+        sym.prove((p[1] > 0) == (v > 0), 'projection z has the sign of the vertical angle')
+    b2 = LighthouseBsVector.from_projection(p)
+    sym.prove(sym.close(b2.lh_v1_horiz_angle, h), 'angles -> projection -> angles, horizontal')
+    sym.prove(sym.close(b2.lh_v1_vert_angle, v), 'angles -> projection -> angles, vertical')
+    b3 = LighthouseBsVector.from_projection([y, z])
+    q = b3.projection
+    sym.prove(sym.close(q[0], y), 'projection -> angles -> projection, y')
+    sym.prove(sym.close(q[1], z), 'projection -> angles -> projection, z')
+    sym.prove(abs(b3.lh_v1_horiz_angle) < 1.5708, 'angle from a projection is within a quarter turn')
+    sym.goal('proved')
+
+
+def h_conv_cart(sym):
+    """The Cartesian form is a unit vector pointing along (1, tan h, tan v); from_cart inverts it and accepts any length."""
+    _abstract_trig(sym)
+    h, v = _angle(sym, 'h'), _angle(sym, 'v')
+    w = [sym.real('w0', 0.05, 10), sym.real('w1', -10, 10), sym.real('w2', -10, 10)]
+    sym.constrain(abs(w[1]) <= 1.5 * w[0])
+    sym.constrain(abs(w[2]) <= 1.5 * w[0])
+    b = LighthouseBsVector(h, v)
+    c = b.cart
+    assert len(c) == 3
+    th, tv = math.tan(h), math.tan(v)
+    sym.prove(sym.close(c[0] * c[0] + c[1] * c[1] + c[2] * c[2], 1.0), 'cart is a unit vector')
+    sym.prove(c[0] > 0, 'cart points forward')
+    sym.prove(sym.close(c[1], c[0] * th), 'cart y / x is tan(horizontal angle)')
+    sym.prove(sym.close(c[2], c[0] * tv), 'cart z / x is tan(vertical angle)')
+    b2 = LighthouseBsVector.from_cart(c)
+    sym.prove(sym.close(c[1] / c[0], th), 'ratio (link)')
+    sym.prove(sym.close(c[2] / c[0], tv), 'ratio (link)')
+    sym.prove(sym.close(b2.lh_v1_horiz_angle, h), 'angles -> cart -> angles, horizontal')
+    sym.prove(sym.close(b2.lh_v1_vert_angle, v), 'angles -> cart -> angles, vertical')
+    # any vector in front of the base station, any length
+    d = LighthouseBsVector.from_cart(w).cart
+    sym.prove(d[0] > 0, 'cart of a forward vector points forward')
+    sym.prove(sym.close(d[1] * w[0], d[0] * w[1]), 'vector -> angles -> cart is parallel to the vector (y)')
+    sym.prove(sym.close(d[2] * w[0], d[0] * w[2]), 'vector -> angles -> cart is parallel to the vector (z)')
+    sym.goal('proved')
+
+
+_TT = math.tan(math.pi / 6)
+
+
+def h_conv_v1_v2_v1(sym):
+    """V1 angles -> V2 sweep angles -> V1 angles is the identity in the field of view."""
+    _abstract_trig(sym)
+    h, v = _angle(sym, 'h'), _angle(sym, 'v')
+    b = LighthouseBsVector(h, v)
+    a1, a2 = b.lh_v2_angle_1, b.lh_v2_angle_2
+    b2 = LighthouseBsVector.from_lh2(a1, a2)
+    sym.prove(sym.close(b2.lh_v1_horiz_angle, h), 'V1 -> V2 -> V1, horizontal')
+    # proof script for the vertical angle: every link is a true statement about the definitions, decided by the solver
+    r = math.sqrt(1 + math.tan(h) ** 2)
+    s = math.asin(math.tan(v) / r * _TT)
+    sym.prove(sym.close(a2 - h, s), 'second sweep angle is h + asin(q tan T) (link)')
+    sym.prove(sym.close(h - a1, s), 'first sweep angle is h - asin(q tan T) (link)')
+    y = math.sin(a2 - a1)
+    x = _TT * (math.cos(a1) + math.cos(a2))
+    sym.prove(sym.close(y, 2 * math.sin(s) * math.cos(s)), 'double angle (link)')
+    sym.prove(sym.close(x, _TT * (2 * math.cos(h) * math.cos(s))), 'sum to product (link)')
+    sym.prove(sym.close(r * math.cos(h), 1.0), '1/sqrt(1+tan^2) = cos (link)')
+    sym.prove(math.cos(s) > 0, 'cos of the half difference is positive in the field of view (link)')
+    sym.prove(x > 0, 'forward (link)')
+    sym.prove(sym.close(math.tan(v) / r, math.tan(v) * math.cos(h)), 'q = tan v cos h (link)')
+    sym.prove(sym.close(math.tan(v) / r * _TT, math.sin(s)), 'sin(asin(q tan T)) (link)')
+    sym.prove(sym.close(math.tan(v) * math.cos(h) * _TT, math.sin(s)), 'q tan T = tan v cos h tan T = sin(s) (link)')
+    tv, ch, cs, ss = math.tan(v), math.cos(h), math.cos(s), math.sin(s)
+    sym.prove(sym.close(tv * x, (tv * ch * _TT) * (2 * cs)), 'regroup (link)')
+    sym.prove(sym.close(tv * x, ss * (2 * cs)), 'substitute (link)')
+    sym.prove(sym.close(tv * x, y), 'y = tan(v) x (link)')
+    sym.prove(sym.close(math.tan(b2.lh_v1_vert_angle) * x, y), 'tan(atan2(y, x)) x = y (link)')
+    sym.prove(sym.close(math.tan(b2.lh_v1_vert_angle), math.tan(v)), 'same tangent (link)')
+    sym.prove(sym.close(b2.lh_v1_vert_angle, v), 'V1 -> V2 -> V1, vertical')
+    if sym.symbolic:
+        sym.prove((math.tan(v) / r * _TT > 0) == (v > 0), 'sign of q (link)')
+        sym.prove((s > 0) == (v > 0), 'sign of the half difference (link)')
+        sym.prove((a2 > a1) == (v > 0), 'second sweep angle is the larger one above the horizon')
+    sym.goal('proved')
+
+
+def h_conv_v2_v1_v2(sym):
+    """V2 sweep angles -> V1 angles -> V2 sweep angles is the identity in the field of view."""
+    _abstract_trig(sym)
+    a1, a2 = _angle(sym, 'a1'), _angle(sym, 'a2')
+    b = LighthouseBsVector.from_lh2(a1, a2)
+    h, v = b.lh_v1_horiz_angle, b.lh_v1_vert_angle
+    sym.prove(sym.close(h, (a1 + a2) / 2), 'horizontal angle is the mean of the sweep angles')
+    beta = (a2 - a1) / 2
+    y = math.sin(a2 - a1)
+    x = _TT * (math.cos(a1) + math.cos(a2))
+    sym.prove(sym.close(y, 2 * math.sin(beta) * math.cos(beta)), 'double angle (link)')
+    sym.prove(sym.close(x, _TT * (2 * math.cos(h) * math.cos(beta))), 'sum to product (link)')
+    sym.prove(x > 0, 'forward (link)')
+    cb, ch, sb, tv = math.cos(beta), math.cos(h), math.sin(beta), math.tan(v)
+    sym.prove(cb > 0, 'cos of the half difference is positive (link)')
+    sym.prove(ch > 0, 'cos of the mean is positive (link)')
+    sym.prove(sym.close(tv, y / x), 'tan(atan2(y, x)) = y / x for x > 0 (link)')
+    sym.prove(sym.close(tv * x, y), 'tan v * x = y (link)')
+    sym.prove(sym.close(tv * (_TT * (2 * ch * cb)), 2 * sb * cb), 'substitute (link)')
+    sym.prove(sym.close(tv * _TT * ch, sb), 'tan of the vertical angle (link)')
+    r = math.sqrt(1 + math.tan(h) ** 2)
+    sym.prove(sym.close(r * ch, 1.0), '1/sqrt(1+tan^2) = cos (link)')
+    sym.prove(sym.close(tv / r, tv * ch), 'q = tan v cos h (link)')
+    sym.prove(sym.close(tv / r * _TT, sb), 'q tan T = sin(half difference) (link)')
+    r1, r2 = b.lh_v2_angle_1, b.lh_v2_angle_2
+    s2 = math.asin(tv / r * _TT)
+    sym.prove(sym.close(s2, beta), 'asin(sin(half difference)) (link)')
+    sym.prove(sym.close(r2 - h, s2), 'second sweep angle is h + asin(q tan T) (link)')
+    sym.prove(abs(tv / r * _TT) < 1, 'asin argument in range (link)')
+    s1 = math.asin(tv / r * math.tan(-math.pi / 6))
+    sym.prove(sym.close(s1, -s2), 'asin is odd (link)')
+    sym.prove(sym.close(r1 - h, s1), 'first sweep angle is h + asin(q tan(-T)) (link)')
+    sym.prove(sym.close(h - r1, s2), 'first sweep angle is h - asin(q tan T) (link)')
+    sym.prove(sym.close(r2, a2), 'V2 -> V1 -> V2, second sweep angle')
+    sym.prove(sym.close(r1, a1), 'V2 -> V1 -> V2, first sweep angle')
+    sym.goal('proved')
+
+
 HARNESSES = [
     Harness('point_inverse[fwd]', h_point_inverse, quick=dict(direction='fwd'), float_model='real', goals=('proved',), timeout=(300, 900), per_path=900),
     Harness('point_inverse[inv]', h_point_inverse, quick=dict(direction='inv'), float_model='real', goals=('proved',), timeout=(300, 900), per_path=900,
@@ -245,4 +412,8 @@ HARNESSES = [
     Harness('inverse_after_scale', h_inverse_after_scale, float_model='real', goals=('proved',), timeout=(300, 900), per_path=900),
     Harness('inverse_after_scale[copy]', h_inverse_after_scale, quick=dict(copy=True), float_model='real', goals=('proved',), timeout=(300, 900), per_path=900),
     Harness('no_alias', h_no_alias, float_model='real', goals=('proved',), timeout=(120, 300)),
+    Harness('conv_projection', h_conv_projection, float_model='real', goals=('proved',), timeout=(300, 900), per_path=900),
+    Harness('conv_cart', h_conv_cart, float_model='real', goals=('proved',), timeout=(300, 900), per_path=900),
+    Harness('conv_v1_v2_v1', h_conv_v1_v2_v1, float_model='real', goals=('proved',), timeout=(300, 900), per_path=900),
+    Harness('conv_v2_v1_v2', h_conv_v2_v1_v2, float_model='real', goals=('proved',), timeout=(300, 900), per_path=900),
 ]
